@@ -1116,6 +1116,11 @@ func (c1 complexConst) binaryOp(op ast.OperatorType, c2 constant) (constant, err
 		if n2.zero() {
 			return nil, errComplexDivisionByZero
 		}
+		// Integer parts are divided as rational numbers. In addition, the
+		// intermediate products are not integer constants and are not
+		// subject to their size limit.
+		n1 = complexConst{r: intToRatConst(n1.r), i: intToRatConst(n1.i)}
+		n2 = complexConst{r: intToRatConst(n2.r), i: intToRatConst(n2.i)}
 		// s = cc + dd
 		cc, _ := n2.r.binaryOp(ast.OperatorMultiplication, n2.r)
 		dd, _ := n2.i.binaryOp(ast.OperatorMultiplication, n2.i)
@@ -1189,7 +1194,20 @@ func (c1 complexConst) equals(c2 constant) bool {
 	return n1.r.equals(n2.r) && n1.i.equals(n2.i)
 }
 
+// intToRatConst returns c as a ratConst if it is an integer constant,
+// otherwise returns c.
+func intToRatConst(c constant) constant {
+	switch c := c.(type) {
+	case int64Const:
+		return newRatConst(int64(c), 1)
+	case intConst:
+		return newRatConst(1, 1).setFrac(c.i, big.NewInt(1))
+	}
+	return c
+}
+
 // toSameConstImpl returns the two constants with the same implementation type
+
 // without changing its represented values.
 func toSameConstImpl(c1, c2 constant) (constant, constant) {
 	switch n1 := c1.(type) {
